@@ -92,6 +92,8 @@ struct C9 {
     probe: Probe,
     engine: Engine,
     pkts: Vec<usize>, // indexes into the packet pool
+    /// create the VM with other offsets / another program first, then load through set_program
+    via_set_program: bool,
 }
 
 pub fn run(a: &Args, rep: &mut Report) {
@@ -156,7 +158,7 @@ pub fn run(a: &Args, rep: &mut Report) {
             continue;
         }
         let pkts: Vec<usize> = (0..3).map(|_| rng.below(pool.len() as u64) as usize).collect();
-        cases.push(C9 { kind, offs, probe, engine, pkts });
+        cases.push(C9 { kind, offs, probe, engine, pkts, via_set_program: rng.chance(1, 3) });
     }
     let pk = |i: usize| -> (*mut u8, usize) { pool[i].as_ref().map(|g| (g.addr() as *mut u8, g.len())).unwrap_or((std::ptr::null_mut(), 0)) };
     // record per execution: status(0 ok,1 err,2 panic) value, hook mbuff addr (interp reference run)
@@ -165,7 +167,13 @@ pub fn run(a: &Args, rep: &mut Report) {
         let prog = probe_prog(c.probe, c.offs);
         let r1prog = probe_prog(Probe::R1, c.offs);
         let r = sys::catch(|| -> Result<Vec<(u8, u64, u64)>, String> {
-            let mut vm = Vm::new(c.kind, Some(&prog), c.offs)?;
+            let mut vm = if c.via_set_program {
+                let mut vm = Vm::new(c.kind, Some(&r1prog), (c.offs.1 / 2 + 8, 0))?;
+                vm.set_program(&prog, c.offs)?;
+                vm
+            } else {
+                Vm::new(c.kind, Some(&prog), c.offs)?
+            };
             match c.engine {
                 Engine::Jit => vm.jit_compile()?,
                 #[cfg(feature = "std")]
@@ -226,11 +234,12 @@ pub fn run(a: &Args, rep: &mut Report) {
         }
     });
     for (c, e) in cases.iter().zip(ends.iter()) {
+        rep.set("load_paths", if c.via_set_program { "new+set_program" } else { "new" });
         let cell = format!("{}:{}:{:?}", c.kind.name(), c.engine.name(), match c.probe { Probe::LdAbs(w, _) => Probe::LdAbs(w, 0), Probe::LdInd(w, _) => Probe::LdInd(w, 0), p => p });
         rep.set("cells", cell.clone());
         rep.set("offset_pairs", format!("{:?}", c.offs));
         rep.case(Some(crate::util::fnv(format!("{cell}{:?}{:?}{:?}", c.offs, c.pkts, c.probe).as_bytes())));
-        let w = json!({"kind": "context-case", "vm": c.kind.name(), "engine": c.engine.name(), "probe": format!("{:?}", c.probe), "offsets": [c.offs.0, c.offs.1],
+        let w = json!({"kind": "context-case", "vm": c.kind.name(), "engine": c.engine.name(), "probe": format!("{:?}", c.probe), "offsets": [c.offs.0, c.offs.1], "via_set_program": c.via_set_program,
             "packets": c.pkts.iter().map(|i| format!("{:#x}+{}", pk(*i).0 as u64, pk(*i).1)).collect::<Vec<_>>(), "prog": hex(&probe_prog(c.probe, c.offs))});
         let sig = |k: &str| format!("C09:{}:{}:{k}", c.kind.name(), c.engine.name());
         let bad_probe = matches!(c.probe, Probe::StackAboveTop | Probe::StackBelowBottom);
